@@ -15,11 +15,25 @@ from common import (NCPU, SIM_DIR, TARGET, VERIF, HarnessError, Rng, cargo_env, 
 from procsim import HEADER_RE, base_env, run_child, split_driver_output
 
 ROUTES = ["lib", "lib_after_others", "cli", "compile_file", "compile_dir", "compile_exit"]
-FACTORS = ["entropy", "clock", "envvars", "cwd", "spelling", "stdout", "heap_pad", "arg_order"]
+FACTORS = ["entropy", "clock", "envvars", "cwd", "spelling", "stdout", "heap_pad", "arg_order", "cpus"]
 
 
-def gen_env(rng):
+CARGO_LIKE = ["CARGO_PKG_NAME", "CARGO_CRATE_NAME", "CARGO_BIN_NAME", "CARGO_PKG_VERSION", "CARGO_PRIMARY_PACKAGE", "PROFILE", "TARGET", "HOST",
+              "OPT_LEVEL", "DEBUG", "NUM_JOBS", "RUSTFLAGS", "RUSTC", "RUSTC_WRAPPER", "CARGO_TARGET_DIR", "LOGNAME", "PWD", "SHELL", "EDITOR"]
+
+
+def gen_env(rng, idents=(), path_leads=()):
     ev = {}
+    if path_leads and rng.coin(500):
+        # the build's own crate/package name equals the first segment of a user path in the grammar
+        ev[rng.choice(["CARGO_PKG_NAME", "CARGO_CRATE_NAME"])] = rng.choice(path_leads)
+    for _ in range(rng.weighted([(0, 50), (1, 25), (2, 15), (4, 10)])):
+        # build-system style variables; with preference for values that collide with identifiers of the grammar
+        name = rng.choice(CARGO_LIKE)
+        if idents and rng.coin(600):
+            ev[name] = rng.choice(idents)
+        else:
+            ev[name] = rng.choice(["1", "0", "true", "release", "debug", "x86_64-unknown-linux-gnu", "my-crate", "my_crate", "/usr/bin/rustc", "-C debuginfo=2", "0.7.0"])
     if rng.coin(300):
         ev["NO_COLOR"] = "1"
     if rng.coin(200):
@@ -55,7 +69,8 @@ def gen_env(rng):
         "envvars": ev,
         "cwd": rng.choice(["proj", "root", "sim"]),
         "spelling": rng.choice(["abs", "rel", "dotrel", "symlink", "redundant"]),
-        "stdout": rng.choice(["pipe", "file"]),
+        "stdout": rng.choice(["pipe", "file", "tty"]),
+        "cpus": rng.choice([None, None, "0", "0-3"]),
         "heap_pad": rng.choice([0, 0, 7, 100, 1000]),
         "arg_order": rng.below(1 << 30),
     }
@@ -80,12 +95,16 @@ def gen_sim(seed, i, pool):
             t2 = rng.choice(inc)
         if t2 != text:
             companions.append(t2.hex())
-    envs = [gen_env(rng) for _ in range(rng.range(2, 4))]
+    import re
+    idents = sorted(set(re.findall(r"[A-Za-z_][A-Za-z0-9_]*", text.decode(errors="replace"))))
+    leads = sorted(set(re.findall(r"(?:@check|@extern)\(\s*([A-Za-z_]\w*)\s*::", text.decode(errors="replace"))) |
+                   set(re.findall(r"->\s*([A-Za-z_]\w*)\s*::", text.decode(errors="replace"))))
+    envs = [gen_env(rng, idents, leads) for _ in range(rng.range(2, 4))]
     # some pairs differ in exactly one factor (sharper attribution, and equal paths stay equal)
     if rng.coin(400):
         f = rng.choice(FACTORS)
         e1 = json.loads(json.dumps(envs[0]))
-        e1[f] = gen_env(rng)[f]
+        e1[f] = gen_env(rng, idents, leads)[f]
         envs[1] = e1
     return {"id": i, "grammar_name": name, "grammar_hex": text.hex(), "derives": derives, "ctx": ctx, "prefix": prefix, "format": fmt, "companions": companions, "envs": envs}
 
@@ -147,6 +166,7 @@ def run_route(route, sim, env, simdir, k, stats=None):
     e.update(env["envvars"])
     sa = settings_args(route, sim)
     stdout_path = os.path.join(envdir, "stdout.txt") if env["stdout"] == "file" else None
+    stdout_tty = env["stdout"] == "tty" 
     comp_paths = []
     for ci, chex in enumerate(sim.get("companions", [])):
         cp = os.path.join(proj, "grammars", "c%d.ebnf" % ci)
@@ -187,7 +207,8 @@ def run_route(route, sim, env, simdir, k, stats=None):
         argv = [sim_bin("driver"), "compile", "--file", g_sp] + ordered(setting_groups() + [["--dest", d_sp]])
         if route == "compile_exit":
             argv.append("--exit")
-    c = run_child(argv, cwd, e, entropy=env["entropy"], clock=env["clock"], heap_pad=env["heap_pad"], stdout_path=stdout_path)
+    c = run_child(argv, cwd, e, entropy=env["entropy"], clock=env["clock"], heap_pad=env["heap_pad"], stdout_path=stdout_path,
+                  stdout_tty=stdout_tty, cpus=env.get("cpus"))
     r = {"crashed": c.crashed(), "status": c.status_word(), "ok": False, "bytes": None, "canary": None, "stderr": c.err[-300:].decode(errors="replace")}
     if c.crashed():
         return r
@@ -315,7 +336,9 @@ def execute_sim(sim, simdir):
                     viol.append({"class": "formatted-output-differs-from-rustfmt-of-plain-output", "route": route, "env": k,
                                  "detail": first_diff(open(tmp, "rb").read(), outs[(route, k)]["bytes"])})
     any_ok = any(r["ok"] for r in outs.values())
-    return viol, {"children": children, "canaries": canaries, "any_ok": any_ok}
+    import hashlib
+    digest = hashlib.sha256(repr(sorted((k, r["status"], r["ok"], hashlib.sha256(r["bytes"] or b"").hexdigest(), r["canary"]) for k, r in outs.items())).encode()).hexdigest()
+    return viol, {"children": children, "canaries": canaries, "any_ok": any_ok, "digest": digest}
 
 
 def first_diff(a, b):
@@ -383,6 +406,15 @@ def run(tier, seed, replay_path=None):
         with ThreadPoolExecutor(NCPU) as ex:
             for i, r in enumerate(ex.map(one, range(n))):
                 results[i] = r
+        # determinism self-test: the first simulations once more; every child's status, output and canary must be identical
+        nself = min(n, 12 if tier == "quick" else 60)
+        diffs = 0
+        for i in range(nself):
+            sim2, (viol2, info2) = one(i)
+            if info2["digest"] != results[i][1][1]["digest"]:
+                diffs += 1
+        if diffs:
+            raise HarnessError("determinism self-test: %d of %d simulations differed between two executions" % (diffs, nself))
         known = [f for f in load_known_findings().get("findings", []) if f.get("property") == "C16"]
         canaries = set()
         children = 0
@@ -463,8 +495,9 @@ def run(tier, seed, replay_path=None):
             "faults_fired": {"entropy_reseeded": factor_varied["entropy"], "clock_moved": factor_varied["clock"], "heap_layout_moved": factor_varied["heap_pad"]},
             "runs_per_hour": int(n / max(wall, 1e-6) * 3600),
             "known_findings_hit": sorted(known_hit),
+            "determinism_selftest": {"simulations_run_twice": nself, "differences": 0},
             "real_components": ["peginator_codegen library route and Compile (driver, linked from the working tree)", "peginator-cli built from /repo/cli", "peginate! expanded by rustc (macro_route crate)", "rustfmt"],
-            "stubbed_components": ["entropy (hash seeds), wall clock and heap layout of every child are seeded by the shim; ASLR off", "environment variables, cwd, path spelling, stdout kind chosen by the orchestrator"],
+            "stubbed_components": ["entropy (hash seeds), wall clock and heap layout of every child are seeded by the shim; ASLR off", "environment variables, cwd, path spelling, stdout kind (pipe, file, terminal), CPU affinity (available_parallelism) chosen by the orchestrator"],
         }
         write_evidence("C16", tier, seed, "exploration", coverage, wall, nviol, [
             "BUILD_TIME is a constant of the build the check made, so same-route outputs are compared including the header",
